@@ -350,7 +350,7 @@ Fixpoint descend_ok (f : fsys) (cur : path) (qs : list name) : bool :=
     match lookup f (cur ++ [c]) with
     | None => true
     | Some NDir => descend_ok f (cur ++ [c]) r
-    | Some (NFile _) => match r with [] => true | _ => false end
+    | Some (NFile _) => true   (* Lstat below a regular file: ENOTDIR, "cannot exist" like ENOENT *)
     | Some (NSym _ _ _) => false
     end
   end.
